@@ -280,6 +280,7 @@ struct Shared {               // created by the main thread before the workers s
     uint8_t slices[16 * 13 + 8]; // ... into its own 13-byte slice of this buffer: neighbours touch, they never overlap
     ascon_xof_state_t xsrc;    // a partly absorbed XOF state and hash state that every thread may copy from
     ascon_hasha_state_t hsrc;
+    ascon_storage_t store;     // one constant storage descriptor for the generators of all threads (the medium behind it is per thread)
 };
 
 struct ThreadCtx {
@@ -301,11 +302,12 @@ struct ThreadCtx {
 // decryption (which receive the same shared const keys) run concurrently too
 #define TAMPER() do { if (tamper && clen) T.out[(sd >> 8) % clen] ^= (uint8_t)(1u << (sd & 7)); } while (0)
 
-static const int NOPK = 26;
+static const int NOPK = 27;
 static const char *opk_name[NOPK] = {"hash", "hasha", "xof", "aead128", "aead128a", "aead80pq", "inc128", "siv128", "siv80pq", "isap128_shared",
                                      "isap128a_shared", "isap80pq_shared", "masked128_shared", "masked80pq_shared", "prf_hmac", "kmac_hkdf", "random", "prng",
                                      "cpp_aead", "cpp_isap_saved_key", "cpp_hash_xof", "cpp_siv_masked",
-                                     "masked_key_toolkit", "copy_from_shared_reinit_hex_state", "prng_reseed_save_load", "adjacent_output_slices"};
+                                     "masked_key_toolkit", "copy_from_shared_reinit_hex_state", "prng_reseed_save_load", "adjacent_output_slices",
+                                     "prng_shared_const_storage"};
 
 // the ISAP classes take (key, len), the others take (key)
 template <class E> static auto make_keyed(const uint8_t *k, size_t klen) -> decltype(E(k, klen)) { return E(k, klen); }
@@ -339,6 +341,18 @@ static void cpp_pair(ThreadCtx &T, const uint8_t *k, size_t klen, const uint8_t 
 
 // per-thread non-volatile storage for ascon_random_save_seed / load_seed (32 bytes inside the thread's own tmp area)
 struct ThrStore { ascon_storage_t st; uint8_t *mem; };
+// callbacks of the SHARED descriptor: the medium, the fault script and the call log belong to the calling thread
+static thread_local uint8_t *t_store_mem;
+static thread_local int t_store_fail;
+static thread_local uint64_t t_store_log;
+static int shr_store_read(const ascon_storage_t *, size_t off, unsigned char *d, size_t n) { memcpy(d, t_store_mem + off, n); return (int)n; }
+static int shr_store_write(const ascon_storage_t *, size_t off, const unsigned char *d, size_t n, int erase)
+{
+    t_store_log = t_store_log * 31 + (erase ? 7 : 3) + off;
+    if (t_store_fail > 0) { --t_store_fail; return 0; }
+    memcpy(t_store_mem + off, d, n);
+    return (int)n;
+}
 static int thr_store_read(const ascon_storage_t *s, size_t off, unsigned char *d, size_t n) { memcpy(d, ((const ThrStore *)s)->mem + off, n); return (int)n; }
 static int thr_store_write(const ascon_storage_t *s, size_t off, const unsigned char *d, size_t n, int) { memcpy(((const ThrStore *)s)->mem + off, d, n); return (int)n; }
 
@@ -492,6 +506,14 @@ static uint64_t run_op(ThreadCtx &T, const Op &op)
         LIB(r = ascon128a_isap_aead_decrypt(mine, &plen, S.slice_ct, sizeof S.slice_ct, nullptr, 0, S.nonce, &S.ik128a));
         memcpy(T.out, mine, 13);
         clen = 13; plen = 0; break; }
+    case 26: { // generators of different threads save and load through ONE shared constant storage descriptor; a third
+               // of the operations meets a failing first write (what the driver is asked to do is part of the result)
+        t_store_mem = T.tmp + 640; t_store_fail = (sd >> 12) % 3 == 0 ? 1 : 0; t_store_log = 0;
+        memset(T.tmp + 640, 0x3c, 64);
+        LIB(ascon_random_init(&T.prng); r = ascon_random_save_seed(&T.prng, &S.store); r += 3 * ascon_random_save_seed(&T.prng, &S.store);
+            r += 9 * ascon_random_load_seed(&T.prng, &S.store); ascon_random_fetch(&T.prng, T.out, 32); ascon_random_free(&T.prng));
+        memcpy(T.out + 32, &t_store_log, 8);
+        clen = 40; break; }
     default: { // masked classes
         ++t_in_lib;
         switch (v % 3) {
@@ -603,6 +625,9 @@ struct ThreadsWorld : World {
         ascon_xof_absorb(&sh->xsrc, sh->msg, 13);
         ascon_hasha_init(&sh->hsrc);
         ascon_hasha_update(&sh->hsrc, sh->msg, 21);
+        memset(&sh->store, 0, sizeof sh->store);
+        sh->store.size = 64; sh->store.page_size = 1; sh->store.erase_size = 0; sh->store.read = shr_store_read; sh->store.write = shr_store_write;
+        Bytes shared_before((uint8_t *)sh, (uint8_t *)sh + sizeof(Shared)); // every shared object is a constant from here on
         std::vector<ThreadCtx *> T;
         for (int t = 0; t < nt; ++t) {
             ThreadCtx *c = (ThreadCtx *)aalloc(64, (sizeof(ThreadCtx) + 63) & ~(size_t)63);
@@ -661,6 +686,18 @@ struct ThreadsWorld : World {
                     int kind = (int)(T[t]->ops[i].u(0) % NOPK);
                     run.violation("C16", "result_differs_from_sequential", opk_name[kind], fmt("thread %d op %zu (%s): result under this interleaving differs from the sequential run", t, i, opk_name[kind]));
                 }
+            }
+        }
+        {
+            // the shared objects were handed to the library as constants only: apart from the output slices they must
+            // hold exactly the bytes they held before the first operation
+            memcpy(((Shared *)shared_before.data())->slices, sh->slices, sizeof sh->slices);
+            if (memcmp(shared_before.data(), sh, sizeof(Shared)) != 0) {
+                size_t d = 0;
+                while (((uint8_t *)sh)[d] == shared_before[d]) ++d;
+                const char *what = d >= offsetof(Shared, store) ? "storage_descriptor" : d >= offsetof(Shared, xsrc) ? "xof_or_hash_source_state" : d >= offsetof(Shared, key) ? "constant_inputs" :
+                                   d >= offsetof(Shared, mk128) ? "masked_key" : "isap_precomputed_key";
+                run.violation("C16", "shared_constant_object_modified", what, fmt("byte %zu of the shared read-only objects changed during the run", d));
             }
         }
         run.fault("sched.preempt.load", g->preempt_site[0]);
